@@ -1,6 +1,7 @@
 package main
 
 import (
+	"fmt"
 	"math/rand"
 	"sort"
 	"strings"
@@ -11,7 +12,35 @@ func init() {
 		c.Res.Rule = "case = storage capabilities (random subset of = != =~ !~ for labels and for lines) x log query AST (0-2 selector matchers; 0-5 stages of all 14 kinds: line filters incl. ip(), label predicates with and/or/parentheses over string/number/duration/bytes/ip comparisons, json/logfmt/regexp/pattern/unpack, line_format/label_format/drop/keep/decolorize, distinct) x 0-12 records (label alphabet c,d,a,zz,lvl,n x 16 values; lines from a vocabulary of words, k=v pairs, IPs, numbers, durations, sizes, non-UTF-8) x limit; evaluated through logql.Parse + Engine.Eval over a mock backend that applies exactly what it is handed; non-trivial = result neither empty nor everything, or an __error__ label is produced; distinct by request line"
 		spec := &Spec[LogCase]{
 			What:   "LogQL.entries/group == Engine.Eval over a capability-configurable backend",
-			Gen:    func(r *rand.Rand) LogCase { return genLogCase(r, allStageKinds, 5, 12) },
+			Gen: func(r *rand.Rand) LogCase {
+				t := genLogCase(r, allStageKinds, 5, 12)
+				if r.Intn(10) == 0 {
+					// an extracted field named like a stream label, on records that share one attribute map, followed
+					// by a filter on that label: a stage that writes through into the shared map changes WHICH later
+					// records match
+					l, v := pick(r, []string{"a", "lvl", "c"}), pick(r, []string{"x", "warn", "k"})
+					attrs := [][2]string{{l, v}, {"zz", "1"}}
+					t.Sel, t.CapsLabel, t.CapsLine, t.Share = nil, nil, nil, true
+					json := r.Intn(2) == 0
+					t.Stages = []LStage{{Kind: map[bool]string{true: "json", false: "logfmt"}[json]},
+						{Kind: "lblf", Pred: &LPred{Kind: "m", M: &LMatcher{Label: l, Op: pick(r, []string{"eq", "ne"}), Value: v}}}}
+					t.Recs = nil
+					for i, n := 0, 2+r.Intn(5); i < n; i++ {
+						body := pick(r, []string{"plain", "n=1", "other=2"})
+						if json {
+							body = pick(r, []string{`{"n":1}`, `{"other":"2"}`, `{}`})
+						}
+						if r.Intn(3) == 0 {
+							body = l + "=" + pick(r, []string{"y", v, "api"})
+							if json {
+								body = fmt.Sprintf(`{%q:%q}`, l, pick(r, []string{"y", v, "api"}))
+							}
+						}
+						t.Recs = append(t.Recs, LRec{TS: int64(i+1) * 1e9, Body: body, Attrs: attrs})
+					}
+				}
+				return t
+			},
 			Req:    func(t LogCase) Sexp { return t.Req() },
 			Impl:   func(t LogCase) Sexp { return logImpl(t, true) },
 			Shrink: shrinkLogCase,
